@@ -17,12 +17,14 @@ func runC03(r *engine.Run) {
 	r.Rule("WHO-prev", "in every method of LevelNodeDB a call on the parent level (value loaded from field prev) is a read (GetNode, MultiGetNode, Iterate, Size) or a DeleteNode reached only with PropagateDeletes true; every PutNode/MultiPutNode goes to the current level")
 	r.Rule("DOM-merge", "in mergeChanges every insertNode/deleteNode/setRoot is reached only when bytes.Equal(trie root, child's start root) held; in MergeMPTChanges the merge is reached only when the child's store is a *LevelNodeDB whose previous level is this trie's store")
 	r.Rule("CLONE-store", "MemoryNodeDB stores CloneNode() of the node it is given (never the caller's object); the trie populates its node cache only through TransactionCache.Set (which clones, C07)")
+	r.Rule("DOM-cancel", "see C05: a node that is live again in the child never stays in the child's delete set (the merge would delete it from the parent)")
 	r.Rule("FRESH-node", "in the trie operations no node field store, node mutator call (SetValue, PutChild, SetOrigin, SetVersion, SetOriginTracker, Decode, CopyFrom) or in-place byte-slice write (append base, copy destination, element store) targets memory that derives from a node handed out by the store/cache, from a caller's argument or from a shallow copy; only constructor results, Clone() results, concat/make results and literals may be written (interprocedural source-label dataflow, parameters by fixpoint over call sites)")
 	r.NotDec = append(r.NotDec, "equality of parent and child views after arbitrary histories")
 	whoPrev(r)
 	domMerge(r)
 	cloneStore(r)
 	freshNode(r, "C03")
+	domCancel(r)
 }
 
 func whoPrev(r *engine.Run) {
